@@ -175,6 +175,10 @@ class Check:
               f'violated={len(viol)} known={len(known)} queries={STATS.queries} solver={STATS.solver_time:.1f}s wall={wall:.1f}s')
         for o in inc[:10]:
             print(f"  inconclusive: {o['name']}: {o.get('detail', '')}")
+        # an encoding gap (the model met an operation it does not know) is never a pass: harness error
+        gaps = [o for o in inc if 'Unsupported' in o.get('detail', '') or 'HarnessError' in o.get('detail', '')]
+        for o in gaps[:5]:
+            self.harness_errors.append(f"encoding cannot follow the code: {o['name']}: {o.get('detail', '')[:160]}")
         if self.violations:
             return EXIT_VIOLATION
         if self.harness_errors:
